@@ -145,6 +145,72 @@ theorem sessionId_inj (m : String) (i j : Nat) (h : sessionId m i = sessionId m 
     exact String.toList_inj.1 this
   exact Nat.repr_injective h1
 
+/-- no batch that is hashed and signed is empty -/
+theorem signed_nonempty (m : String) (bs : List Bt) : ∀ x ∈ signed m bs, x.2 ≠ [] := by
+  unfold signed; generalize 0 = k
+  induction bs generalizing k with
+  | nil => simp [signedFrom]
+  | cons b bs ih =>
+    intro x hx
+    simp only [signedFrom] at hx
+    split at hx
+    · exact ih _ x hx
+    · next hne =>
+      rcases List.mem_cons.1 hx with rfl | hx
+      · simpa using hne
+      · exact ih _ x hx
+
+/-- skipping the empty batches loses no proposal: what is signed is, in order, everything that was batched -/
+theorem signed_flatten (m : String) (bs : List Bt) :
+    ((signed m bs).map (·.2)).flatten = ((bs.map (·.members)).flatten).map (·.1) := by
+  unfold signed; generalize 0 = k
+  induction bs generalizing k with
+  | nil => simp [signedFrom]
+  | cons b bs ih =>
+    simp only [signedFrom]
+    split
+    · next h => simp [ih (k+1), h]
+    · simp [ih (k+1)]
+
+theorem signedFrom_sid (m : String) (bs : List Bt) (k : Nat) :
+    ∀ x ∈ signedFrom m k bs, ∃ j, k ≤ j ∧ x.1 = sessionId m j := by
+  induction bs generalizing k with
+  | nil => simp [signedFrom]
+  | cons b bs ih =>
+    intro x hx
+    simp only [signedFrom] at hx
+    split at hx
+    · obtain ⟨j, hj, e⟩ := ih _ x hx; exact ⟨j, by omega, e⟩
+    · rcases List.mem_cons.1 hx with rfl | hx
+      · exact ⟨k, Nat.le_refl _, rfl⟩
+      · obtain ⟨j, hj, e⟩ := ih _ x hx; exact ⟨j, by omega, e⟩
+
+/-- the batches of one delivery are signed under pairwise distinct session ids -/
+theorem signed_sids_nodup (m : String) (bs : List Bt) : ((signed m bs).map (·.1)).Nodup := by
+  unfold signed; generalize 0 = k
+  induction bs generalizing k with
+  | nil => simp [signedFrom]
+  | cons b bs ih =>
+    simp only [signedFrom]
+    split
+    · exact ih _
+    · simp only [List.map_cons, List.nodup_cons]
+      refine ⟨?_, ih _⟩
+      intro hmem
+      obtain ⟨x, hx, hxe⟩ := List.mem_map.1 hmem
+      obtain ⟨j, hj, e⟩ := signedFrom_sid m bs (k+1) x hx
+      have := sessionId_inj m j k (by rw [← e, hxe])
+      omega
+
+/-- **C14 at the `Execute` level.** What is hashed and signed for a delivery is, in order, exactly the pending
+    proposals, in non-empty batches with pairwise distinct session ids. -/
+theorem signed_partition (cap tg : Nat) (ps : List PIn) (m : String) (hno : NoOverflow (pending tg ps)) :
+    ((signed m (batches cap tg ps)).map (·.2)).flatten = (pending tg ps).map (·.1) ∧
+    (∀ x ∈ signed m (batches cap tg ps), x.2 ≠ []) ∧
+    ((signed m (batches cap tg ps)).map (·.1)).Nodup := by
+  refine ⟨?_, signed_nonempty _ _, signed_sids_nodup _ _⟩
+  rw [signed_flatten, (batches_P14 cap tg ps hno).1]
+
 /-- the wrap point, stated rather than hidden: with allowances summing past 2^64 the batch gas is *not*
     the sum of its members' allowances (uint64 wrap) -/
 theorem overflow_point :
